@@ -154,7 +154,7 @@ func c12Forms(sc *c07Schema) []c12Form {
 }
 
 var c12Positions = []string{"select-item", "select-item-unaliased", "function-argument", "array-element", "case-branch", "case-else", "case-condition", "in-list", "where",
-	"subquery-select-list", "grouped-select-list", "having", "joined-select-list", "cte-select-list", "derived-select-list", "order-by-key", "distinct-item", "union-branch", "star-plus-item", "nested-from-select-item"}
+	"subquery-select-list", "grouped-select-list", "having", "joined-select-list", "cte-select-list", "derived-select-list", "order-by-key", "distinct-item", "union-branch", "star-plus-item", "nested-from-select-item", "distinct-order-tie", "distinct-order-hidden"}
 
 func c12Col(form string, prefix string) string {
 	out := form
@@ -207,7 +207,7 @@ func genC12(t *rapid.T) any {
 }
 
 var c12AsyncDirect = map[string]bool{"select-item": true, "select-item-unaliased": true, "star-plus-item": true, "joined-select-list": true, "cte-select-list": true,
-	"derived-select-list": true, "subquery-select-list": true, "union-branch": true, "distinct-item": true, "order-by-key": true, "nested-from-select-item": true}
+	"derived-select-list": true, "subquery-select-list": true, "union-branch": true, "distinct-item": true, "order-by-key": true, "nested-from-select-item": true, "distinct-order-tie": true, "distinct-order-hidden": true}
 
 func c12Render(doc map[string]any, sc *c07Schema, f c12Form, pos string, where string, join string) *C12Case {
 	if f.name == "async-call" && !c12AsyncDirect[pos] {
@@ -258,6 +258,11 @@ func c12Render(doc map[string]any, sc *c07Schema, f c12Form, pos string, where s
 		c.SQL = fmt.Sprintf("SELECT %s, %s, %s, %s AS e FROM t%s ORDER BY e, %s, %s, %s", k, s, v, e, where, k, s, v)
 	case "distinct-item":
 		c.SQL = fmt.Sprintf("SELECT DISTINCT %s, %s AS e FROM t%s", k, e, where)
+	case "distinct-order-tie":
+		// no join, no grouping: the sequence is the same on every evaluation, also where ORDER BY leaves ties
+		c.SQL = fmt.Sprintf("SELECT DISTINCT %s, %s AS e FROM t%s ORDER BY %s", s, e, where, s)
+	case "distinct-order-hidden":
+		c.SQL = fmt.Sprintf("SELECT DISTINCT %s, %s AS e FROM t%s ORDER BY %s", s, e, where, k)
 	case "union-branch":
 		c.SQL = fmt.Sprintf("SELECT %s AS e FROM t%s UNION ALL SELECT %s AS e FROM t", k, where, e)
 	case "star-plus-item":
@@ -375,7 +380,7 @@ func init() {
 		Title: "Results are plain self-contained data and evaluation is deterministic",
 		Rule: "rapid draws a document and (2/3) one of 64 expression forms (columns, literals of every kind, arithmetic, unary, comparisons, IN, BETWEEN, LIKE, " +
 			"IS, NOT, AND/OR, CASE with and without ELSE, built-in and user function calls, nested calls, subqueries, ASYNC / ONCE / SPIN / SPINASYNC " +
-			"calls, SETVAR/GETVAR, FUSE, CONSTANT, 14 built-ins with NULL / missing arguments) placed in one of 20 positions (select item aliased/unaliased, function argument, array element, " +
+			"calls, SETVAR/GETVAR, FUSE, CONSTANT, 14 built-ins with NULL / missing arguments) placed in one of 22 positions (select item aliased/unaliased, function argument, array element, " +
 			"CASE branch/else/condition, IN list, WHERE, subquery select list, grouped select list, HAVING, joined select list, CTE and derived-table " +
 			"select lists, ORDER BY key, DISTINCT item, UNION branch, star plus item, select item of a multi-dimensional FROM) or (1/4) one of the 47 wide constructs, or (1/10) the form mixed-kinds: GROUP BY / DISTINCT / IN-subquery / JOIN / HASH_JOIN / UNION / correlated equality over a column whose values mix kinds and Go types (text vs number, int vs float64 vs float32, -0, 1e6), re-executed 24 times. Oracle on every " +
 			"successful result: reflective walk (only maps with string keys, slices, strings, Go numeric kinds, bools, nil; no type declared by " +
